@@ -27,9 +27,18 @@ struct CaseIn {
   Value v;
   Tape* rest = nullptr;
   std::string src;   // "variant:<i>" | "tape:<words>"
+  bool nested = false;   // a sub-case started by a body itself
 };
 
 using Body = std::function<std::string(Ctx&, CaseIn&)>;
+
+// Selects the Serializer / Deserializer form (kit/typeops.h) for one case as a function of the case's source
+// text, so that a replay picks the same form; restores form 0 on scope exit.
+struct FormGuard {
+  explicit FormGuard(const CaseIn& in) { serializer_form() = (int)(hash_str(in.src) % 3); }
+  ~FormGuard() { serializer_form() = 0; }
+  static const char* name() { static const char* n[] = {"Serializer<W*>", "Serializer<unique_ptr<W>>", "Serializer<W>"}; return n[serializer_form() % 3]; }
+};
 
 inline std::string case_text(const Ctx& c, const CaseIn& in) {
   return "prop=" + c.rep.property + " type=" + in.t->name + " src=" + in.src;
